@@ -69,7 +69,7 @@ impl<'a, T: Read + Write + Seek> PointCloudWriter<'a, T> {
         Self::validate_prototype(&prototype)?;
 
         // Calculate max number of points per packet
-        let max_points_per_packet = get_max_packet_points(&prototype);
+        let max_points_per_packet = get_max_packet_points(&prototype)?;
 
         // Prepare byte stream buffers
         let byte_streams = vec![ByteStreamWriteBuffer::new(); prototype.len()];
@@ -778,7 +778,7 @@ fn validate_return(prototype: &[Record]) -> Result<()> {
 /// Each data packet can contain up to 2^16 bytes, but we need some reserved
 /// space for header data. We also need to consider some "incomplete" bytes
 /// from record value sizes that are not a multiple of 8 bits.
-fn get_max_packet_points(prototype: &[Record]) -> usize {
+fn get_max_packet_points(prototype: &[Record]) -> Result<usize> {
     const SAFETY_MARGIN: usize = 500;
     let point_size_bits: usize = prototype.iter().map(|p| p.data_type.bit_size()).sum();
     let bs_size_headers = prototype.len() * 2; // u16 for each byte stream header
@@ -787,7 +787,14 @@ fn get_max_packet_points(prototype: &[Record]) -> usize {
     let u16_max = u16::MAX as usize;
     if point_size_bits == 0 {
         // Points without any stored bits (all records have min=max) do not occupy packet space
-        return u16_max;
+        return Ok(u16_max);
     }
-    ((u16_max - headers_size - max_incomplete_bytes - SAFETY_MARGIN) * 8) / point_size_bits
+    let max_points = u16_max
+        .checked_sub(headers_size + max_incomplete_bytes + SAFETY_MARGIN)
+        .map(|payload_size| (payload_size * 8) / point_size_bits)
+        .unwrap_or(0);
+    if max_points == 0 {
+        Error::invalid("The prototype is too big, a single point does not fit into a data packet")?
+    }
+    Ok(max_points)
 }
